@@ -9,11 +9,10 @@ Mirrors, function by function, `src/solver.cc`:
 A C string is modelled by the list of its bytes *before* the terminating NUL
 (`Bytes`); "the pointer `s`" is a suffix of that list and `*s == 0` is `s = []`.
 All functions below only ever inspect the head of the suffix they hold, i.e. a
-byte at an index ≤ the index of the NUL.  The one place where the C++ code reads
-beyond the NUL (`SkipToMatchingQuote` on an unterminated quote) is made explicit
-as the result `none` ("over-read").  `MpVerif/C11/ModelPtr.lean` gives the same
-scanners as pointer machines over a buffer with explicit read indices and proves
-the agreement.
+byte at an index ≤ the index of the NUL.  (Before ampl/mp 7d345ba `SkipToMatchingQuote` had no
+NUL test and read beyond the NUL on an unterminated quote; the model then had an explicit
+"over-read" result.)  `MpVerif/C11/ModelPtr.lean` gives the same scanners as pointer machines
+over a buffer with explicit read indices and proves the agreement.
 
 `isspace`/`tolower` are the "C" locale ones (the harness never calls `setlocale`).
 Core Lean only.
@@ -52,19 +51,12 @@ def skipSpaces (s : Bytes) : Bytes := s.dropWhile isSpace
 def skipNonSpaces (s : Bytes) : Bytes := s.dropWhile (fun c => !isSpace c)
 def skipToEnd (s : Bytes) : Bytes := s.dropWhile (fun c => c.toNat != 10)
 
-/-- Position of the first occurrence of `q` in `s`, if any. -/
-def findByte (q : UInt8) : Bytes → Option Nat
-  | [] => none
-  | c :: r => if c == q then some 0 else (findByte q r).map (· + 1)
-
-/-- `SkipToMatchingQuote(s)` for `s = q :: r` (`q` a quote character): the text
-between the quotes and the rest after the closing quote.  `none`: there is no
-closing quote before the NUL; the C++ loop `while (*s != quote) ++s;` then reads
-beyond the terminating NUL (undefined behaviour, an over-read). -/
-def skipToMatchingQuote (q : UInt8) (r : Bytes) : Option (Bytes × Bytes) :=
-  match findByte q r with
-  | none => none
-  | some i => some (r.take i, r.drop (i + 1))
+/-- `SkipToMatchingQuote(s)` for `s = q :: r` (`q` a quote character) together with what
+`OptionHelper<std::string>::Parse` makes of it (ampl/mp 7d345ba): the scan
+`while (*s && *s != quote) ++s;` stops at the closing quote or at the terminating NUL; the value
+is the text in between; the closing quote, if there is one, is skipped. -/
+def skipToMatchingQuote (q : UInt8) (r : Bytes) : Bytes × Bytes :=
+  (r.takeWhile (fun c => c != q), (r.dropWhile (fun c => c != q)).drop 1)
 
 /-! ## integer values: `strtol(s, &end, 10)` then `long → int` -/
 
@@ -184,15 +176,15 @@ def parseDbl (s : Bytes) : Bytes × Bytes :=
 
 /-! ## string values -/
 
-/-- `OptionHelper<std::string>::Parse`.  `none` = over-read (unterminated quote). -/
-def parseStrVal (splitString : Bool) (s : Bytes) : Option (Bytes × Bytes) :=
-  if splitString then some (s.takeWhile (fun c => c.toNat != 10), skipToEnd s)
+/-- `OptionHelper<std::string>::Parse`: value and new `s`. -/
+def parseStrVal (splitString : Bool) (s : Bytes) : Bytes × Bytes :=
+  if splitString then (s.takeWhile (fun c => c.toNat != 10), skipToEnd s)
   else
     match s with
     | c :: r =>
       if isQuote c then skipToMatchingQuote c r
-      else some (s.takeWhile (fun c => !isSpace c), skipNonSpaces s)
-    | [] => some ([], [])
+      else (s.takeWhile (fun c => !isSpace c), skipNonSpaces s)
+    | [] => ([], [])
 
 /-! ## suffix/length facts (progress) -/
 
@@ -211,26 +203,10 @@ theorem stripSign_length_le (t : Bytes) : (stripSign t).length ≤ t.length := b
   · split <;> simp
   · simp
 
-theorem findByte_lt {q : UInt8} {r : Bytes} {i : Nat} (h : findByte q r = some i) : i < r.length := by
-  induction r generalizing i with
-  | nil => simp [findByte] at h
-  | cons c r ih =>
-    simp only [findByte] at h
-    split at h
-    · simp at h; subst h; simp
-    · cases hf : findByte q r with
-      | none => simp [hf] at h
-      | some j => simp [hf] at h; subst h; have := ih hf; simp; omega
-
-theorem skipToMatchingQuote_length_lt {q : UInt8} {r v r' : Bytes}
-    (h : skipToMatchingQuote q r = some (v, r')) : r'.length < r.length := by
-  unfold skipToMatchingQuote at h
-  split at h
-  · simp at h
-  · rename_i i hi
-    simp at h
-    have := findByte_lt hi
-    rw [← h.2]; simp; omega
+theorem skipToMatchingQuote_length_le (q : UInt8) (r : Bytes) : (skipToMatchingQuote q r).2.length ≤ r.length := by
+  unfold skipToMatchingQuote
+  have := dropWhile_length_le (fun c => c != q) r
+  simp; omega
 
 theorem parseInt_length_le (s : Bytes) : (parseInt s).2.length ≤ s.length := by
   unfold parseInt
@@ -343,16 +319,15 @@ theorem strtodRest_length_le (s : Bytes) : (strtodRest s).length ≤ s.length :=
 
 theorem parseDbl_length_le (s : Bytes) : (parseDbl s).2.length ≤ s.length := strtodRest_length_le s
 
-theorem parseStrVal_length_le {b : Bool} {s v r : Bytes} (h : parseStrVal b s = some (v, r)) :
-    r.length ≤ s.length := by
-  unfold parseStrVal at h
-  split at h
-  · simp at h; rw [← h.2]; exact skipToEnd_length_le s
-  · split at h
+theorem parseStrVal_length_le (b : Bool) (s : Bytes) : (parseStrVal b s).2.length ≤ s.length := by
+  unfold parseStrVal
+  split
+  · exact skipToEnd_length_le s
+  · split
     · rename_i c r0
-      split at h
-      · have := skipToMatchingQuote_length_lt h; simp; omega
-      · simp at h; rw [← h.2]; exact skipNonSpaces_length_le _
-    · simp at h; rw [← h.2]; simp
+      split
+      · have := skipToMatchingQuote_length_le c r0; simp; omega
+      · exact skipNonSpaces_length_le _
+    · simp
 
 end MpVerif.C11
